@@ -5,13 +5,18 @@ Roots == {"Activity", "IntransitiveActivity", "Question", "Object", "Actor", "Pl
 ObjVal == With(BaseV("Object", 31), "content", Nlv(<<LR(NilTag, "c")>>))
 ObjValue == [ObjVal EXCEPT !.ptr = FALSE]
 ActorVal == Person1
-Children == { <<"iri", I1>>, <<"object", ObjVal>>, <<"object-value", ObjValue>>, <<"actor", ActorVal>>, <<"idless", Untyped>>, <<"link", Link1>>,
+IdlessUrl == Obj("Object", [name |-> Nlv(<<LR(NilTag, "no id")>>), url |-> Iri(Base \o "pages/1"), type |-> Str("Page")])
+IdlessActor == Obj("Actor", [type |-> Str("Person"), inbox |-> Iri(Base \o "inbox/x"), url |-> Iri(Base \o "profile/x"), preferredUsername |-> Nlv(<<LR(NilTag, "x")>>)])
+ObjVal2 == With(ObjVal, "summary", Nlv(<<LR(NilTag, "same id, other content")>>))
+ObjValHttp == With(ObjVal, "id", Str("http://example.com/Object/31"))
+Children == { <<"idless-url", IdlessUrl>>, <<"idless-actor", IdlessActor>>, <<"iri", I1>>, <<"object", ObjVal>>, <<"object-value", ObjValue>>, <<"actor", ActorVal>>, <<"idless", Untyped>>, <<"link", Link1>>,
               <<"link-with-id", With(Link1, "id", Str(Base \o "links/1"))>>, <<"activity", Embedded("Activity", 32)>>,
               <<"collection", Embedded("OrderedCollection", 33)>>, <<"place", Embedded("Place", 34)>> }
 Single == UNION {{Case("flat", g, t, ch[1], With(BaseV(g, 1), t, ch[2])) : ch \in Children} : g \in Roots, t \in FlatPos("Activity")} 
 SingleOK == {c \in Single : c.lab.t \in FlatPos(c.lab.g)}
-ListChildren == {I1, I2, ObjVal, ActorVal, Untyped, Link1, With(Link1, "id", Str(Base \o "links/1")), Iri(ObjVal.p.id.s)}
+ListChildren == {I1, I2, ObjVal, ObjVal2, ObjValHttp, IdlessUrl, IdlessActor, ActorVal, Untyped, Link1, With(Link1, "id", Str(Base \o "links/1")), Iri(ObjVal.p.id.s)}
 Lists2 == {<<a, b>> : a \in ListChildren, b \in ListChildren} \cup {<<a, b, a>> : a \in {I1, ObjVal, ActorVal}, b \in ListChildren}
+          \cup {<<ObjVal, I2, ObjVal2>>, <<ObjVal, ObjValHttp, I1>>, <<ObjVal2, ObjVal, ObjVal2>>}
 ListCases == UNION {{Case("flat", g, t, "list", With(BaseV(g, 1), t, ListOf(l))) : l \in Lists2} : g \in {"Activity", "Object", "Actor"}, t \in FlatLists}
 \* frame: a non-flattened property holding an embedded object must stay
 FrameCases == {Case("flat", g, t, "frame", With(With(BaseV(g, 1), t, ObjVal), "attributedTo", ActorVal))
